@@ -12,7 +12,7 @@ mkdir -p "$W/tmp"
 git -C "$W" apply "$OUT/patch.diff" || { echo "patch does not apply"; git -C /repo worktree remove --force "$W"; exit 2; }
 CARGO_TARGET_DIR=/tmp/confirm/target-benign-$ID /verif/selftest/repo_suite.sh "$W" >"$OUT/suite.txt" 2>&1; SUITE=$?
 rm -rf /tmp/confirm/target-benign-$ID
-export VERIF_OUT=/tmp/confirm/out-benign-$ID; mkdir -p $VERIF_OUT
+export VERIF_ALT_TARGET=/tmp/confirm/alt-benign-$ID VERIF_OUT=/tmp/confirm/out-benign-$ID; mkdir -p $VERIF_OUT
 ALARMS=""; : >"$OUT/check_output.txt"
 CHECK=${CHECK_CMD:-/verif/check}
 for c in $CHECKS; do
@@ -23,7 +23,7 @@ for c in $CHECKS; do
   fi
   rm -f "/tmp/confirm/benign-$ID.$c.out"
 done
-rm -rf $VERIF_OUT; git -C /repo worktree remove --force "$W"
+rm -rf $VERIF_OUT $VERIF_ALT_TARGET; git -C /repo worktree remove --force "$W"
 python3 - "$OUT" "$ID" "$SUITE" "$ALARMS" <<'PY'
 import json,sys,os
 out,id_,suite,alarms=sys.argv[1:5]
